@@ -18,6 +18,7 @@ def run(facts, tier):
         ("couplings", lambda fa: cowrite.obligations(fa, ['density_sketch']), 2, "fields that every mutator updates together (counters, extremes, cached values) are still updated together"),
         ("emptiness predicate support", lambda fa: predicates.obligations(fa, ['density_sketch']), 1, "the emptiness predicate still consults every field it depended on in the reviewed tree (spec/predicates.json)"),
         ("argument checkers", lambda fa: validators.checker_obligations(fa, ["density"]), 5, "the argument / image checkers of the family reject exactly the reviewed ranges (spec/checkers.json)"),
+        ("moves from lvalue operands", lambda fa: generic_lints.moves_from_lvalue_operands(fa, ['density']), 1, "in the lvalue instantiation of a forwarding-reference operand nothing is std::move-d out of the caller's object (a point passed to update() by name stays intact)"),
         ("tautologies", lambda fa: generic_lints.tautologies(fa, ('density/',)), 2, "no comparison / assignment / min-max with two identical operands, no if-else with identical arms"),
         ("hazards", lambda fa: hazard_lints.hazards(fa, ('density/',)), 2, "no 64-bit value silently narrowed at a call of a library function, no numeric_limits<floating>::min() as a lowest value, no random engine constructed inside a loop, no read of a moved-from parameter, no unguarded unsigned `x - c` loop bound (reviewed instances in spec/hazards.json)"),
         ("duplicate operands", lambda fa: generic_lints.duplicate_conjuncts(fa, ('density/',)), 2, "no logical chain tests the same operand twice (copy-paste of the wrong peer)"),
